@@ -108,7 +108,7 @@ StreamSS == cfg.stream \in {"server", "bidi"}
 \*   tags.oneof_members_unchecked    the numbers of OneOf members are not checked against their siblings (nor required to exist)
 \*   tags.unchecked_with_metadata    when request metadata is mapped, the numbers of the remaining message attributes are not checked
 \*   tags.nested_types_unchecked     the numbers inside a user type used as attribute are not checked
-\*   (further deviations are listed next to the operators they change)
+\*   validate.absent_collection_length  (see SideValid)
 
 \* --- eval
 Accept ==
@@ -158,15 +158,9 @@ ClientWire(a, v) == IF v = Absent THEN [loc |-> "none", v |-> Absent] ELSE [loc 
 \* what the other side reads back
 ReadBack(a, w) == IF w.loc = "none" THEN (IF a.mode = "default" THEN DefaultOf(a) ELSE Absent) ELSE w.v
 \* validation as the generated code performs it
-\*   validate.oneof_members_skipped      the rules attached to a OneOf member are not applied
-\*   validate.required_oneof_unchecked   a required OneOf attribute that is not set is let through
-\*   validate.metadata_list_elements_skipped  rules on the elements of a list carried in metadata are not applied
 \*   validate.absent_collection_length  MinLength of an optional list / map is applied to the unset (nil) value (same defect as in the HTTP transport)
 SideValid(a, d) ==
   IF d = Absent /\ a.mode = "optional" /\ a.rule = "cminlen" /\ Dev("validate.absent_collection_length") THEN FALSE
-  ELSE IF a.nest = "oneof" /\ d # Absent /\ Dev("validate.oneof_members_skipped") THEN TRUE
-  ELSE IF a.nest = "oneof" /\ d = Absent /\ Dev("validate.required_oneof_unchecked") THEN TRUE
-  ELSE IF a.nest = "elem" /\ a.loc # "message" /\ d # Absent /\ a.rule \notin {"cminlen", "cmaxlen"} /\ Dev("validate.metadata_list_elements_skipped") THEN TRUE
   ELSE GValid(a, d)
 SideViolation(a, d) == IF d = Absent /\ a.mode = "optional" /\ a.rule = "cminlen" THEN "invalid_length" ELSE ViolationOf(a, d)
 
